@@ -125,6 +125,17 @@ def session(ctx, keep, PROJ, budget_s, per_call_events, event="LINE"):
     rnd = ctx.sub("interleave" + event)
     order = list(range(len(keep)))
     rnd.shuffle(order)
+    # every distinct operation gets its turn before any operation gets a second one (the budget is small, and a window
+    # in one function must not depend on that function being drawn early)
+    groups = {}
+    for i in order:
+        groups.setdefault(keep[i][0].split()[0] + (" " + keep[i][0].split()[7] if keep[i][0].startswith("cvn ") and len(keep[i][0].split()) > 7 else ""), []).append(i)
+    keys = sorted(groups); rnd.shuffle(keys)
+    order = []
+    while any(groups.values()):
+        for k in keys:
+            if groups[k]:
+                order.append(groups[k].pop(0))
 
     def agree(line, proj, want, got):
         return PROJ[proj](got) == PROJ[proj](want)
@@ -161,7 +172,9 @@ def session(ctx, keep, PROJ, budget_s, per_call_events, event="LINE"):
                 got, n_events, _ = drv.run(xthunk, set(), None)
                 if not agree(xline, xproj, xwant, got) or n_events == 0:
                     continue                                # not reproducible under monitoring: skip
-                points = _pick(n_events, per_call_events)
+                # first pass (one call per operation): few switch points each, so that every operation is reached within the budget
+                first_pass = order.index(xi) < len(keys)
+                points = _pick(n_events, min(per_call_events, 6) if first_pass else per_call_events)
                 # --- faults: X is cut short by an exception at a line, then X (same objects) and a Y run normally
                 for k in points:
                     if time.time() - t0 > budget_s:
